@@ -1,0 +1,58 @@
+//go:build verif
+
+// Verification hook (build tag verif): a fault point consulted by every mutating
+// primitive of package fs.  With no hook installed and LAYERCAKE_VERIF_FAULT unset it
+// does nothing.  In-process the harness installs VerifHook; the binaries honour
+//   LAYERCAKE_VERIF_FAULT=fail:<k>   the k-th mutating operation (0-based) reports an I/O error
+//   LAYERCAKE_VERIF_FAULT=crash:<k>  the process dies (exit 137) before the k-th operation
+//   LAYERCAKE_VERIF_LOG=<file>       append one line per mutating operation
+
+package fs
+
+import (
+	"errors"
+	"fmt"
+	"os"
+	"strconv"
+	"strings"
+)
+
+// VerifHook, when non-nil, is called before each mutating operation with its kind and
+// operands; a non-nil result is returned to the caller instead of performing the operation.
+var VerifHook func(kind, a, b string) error
+
+var verifCount int
+var verifMode string
+var verifAt = -1
+
+func init() {
+	spec := os.Getenv("LAYERCAKE_VERIF_FAULT")
+	if i := strings.IndexByte(spec, ':'); i > 0 {
+		if n, err := strconv.Atoi(spec[i+1:]); err == nil {
+			verifMode, verifAt = spec[:i], n
+		}
+	}
+}
+
+func verifPoint(kind, a, b string) error {
+	if VerifHook != nil {
+		return VerifHook(kind, a, b)
+	}
+	if logname := os.Getenv("LAYERCAKE_VERIF_LOG"); logname != "" {
+		if fh, err := os.OpenFile(logname, os.O_WRONLY|os.O_APPEND|os.O_CREATE, 0644); err == nil {
+			fmt.Fprintf(fh, "%d %s %q %q\n", verifCount, kind, a, b)
+			fh.Close()
+		}
+	}
+	n := verifCount
+	verifCount++
+	if n == verifAt {
+		switch verifMode {
+		case "fail":
+			return errors.New("injected I/O error (verif)")
+		case "crash":
+			os.Exit(137)
+		}
+	}
+	return nil
+}
